@@ -303,7 +303,38 @@ def block_loops(facts):
                          labs if tm["k"] == "switch" else "-"), None, b.loc(u, "term"))
         if nexit < 2:
             t.row(False, b.id, "exits", "found %d loop exits; expected the end-of-input exit and at least one error exit" % nexit)
-    t.rr.require_floor(7, "block-loop obligations")
+        # (3) both loops ask the source for exactly `block_size` samples, the caller's argument: not a clamped value and not
+        # the configuration's own block size (the argument overrides the configuration)
+        cnt = lexpr(b, b.term(rd)["args"][1])
+        bare = isinstance(cnt, tuple) and cnt[0] == "p" and not cnt[2]
+        t.row(bare, b.id, "reads-block-size-argument", "%s asks the source for %s samples per block, not for its block-size "
+              "parameter: the two modes (and the frame-level API) then cut the input into different blocks"
+              % (b.id, lshow(cnt)[:80]), None, b.loc(rd, "term"))
+        if bare and b.raw.get("vis", "") != "pub" and not b.id.endswith("::encode_with_fixed_block_size"):
+            for cb_ in facts.body_list:
+                for cbi, ctt in cb_.calls():
+                    if b.id in facts.callee_ids(ctt) and len(ctt["args"]) >= cnt[1]:
+                        ce = lexpr(cb_, ctt["args"][cnt[1] - 1])
+                        okc = isinstance(ce, tuple) and ce[0] == "p" and not ce[2]
+                        t.row(okc, cb_.id, "passes-block-size-argument", "%s passes %s to %s as the number of samples per "
+                              "block, not its own block-size argument" % (cb_.id, lshow(ce)[:80], b.id), None,
+                              cb_.loc(cbi, "term"))
+    # (4) the stream encoders never consult the configuration's block_size field: the argument is authoritative
+    for b in facts.body_list:
+        if not (b.module in ("par", "coding") and re.search(r"(encode_with_fixed_block_size|feed_fixed_block_size)", b.id)):
+            continue
+        for bi, si, st in b.iter_stmts():
+            if st["k"] != "assign":
+                continue
+            rv = st["rv"]
+            for o in [rv.get(k) for k in ("op", "a", "b") if isinstance(rv.get(k), dict)] + list(rv.get("ops", [])):
+                pl = o.get("pl") if o.get("k") in ("copy", "move") else None
+                if pl and ".block_size" in pl["p"] and "config::Encoder" in (b.local_ty(pl["l"]) or ""):
+                    t.row(False, b.id, "reads-config-block-size", "%s reads config.block_size (%s): the block_size argument "
+                          "of the stream encoders overrides the configuration, so a value taken from the configuration "
+                          "makes this mode cut (or describe) blocks differently when the two differ"
+                          % (b.id, b.loc(bi, si)), None, b.loc(bi, si))
+    t.rr.require_floor(10, "block-loop obligations")
     return [t.rr]
 
 
